@@ -364,7 +364,7 @@ pub fn check_case(ctx: &mut Ctx, ps: &mut Parsers, case: &Case) {
 
 /// letters of 2, 3 and 4 bytes, a combining sequence, multi-byte white space (2 and 3 bytes), multi-byte punctuation,
 /// a zero-width character
-const MULTIBYTE: &[&str] = &["é", "€", "😀", "e\u{301}", "\u{a0}", "\u{3000}", "¿", "\u{200b}", "[-é-]", " -- é\n", "\\é"];
+const MULTIBYTE: &[&str] = &["é", "€", "😀", "e\u{301}", "\u{a0}", "\u{3000}", "¿", "\u{200b}", "[-é-]", " -- é\n", "\\é", "（é）", "）", "｛１｝", "＠", "％", "｜"];
 
 /// insert each multi-byte char at every token boundary of `seed` in turn
 pub fn multibyte_sweep(seed: &str, mut f: impl FnMut(String)) {
